@@ -3,6 +3,7 @@
 package freelist
 
 import (
+	"fmt"
 	"sort"
 
 	"go.etcd.io/bbolt/internal/common"
@@ -25,6 +26,9 @@ type VerifState struct {
 	Allocs           map[common.Pgid]common.Txid
 	Cache            []common.Pgid
 	Readers          []common.Txid
+	// Raw renders the order-sensitive parts (reader ids and pending ids as stored, unsorted) so that a state key
+	// built from this dump does not merge states that differ only in internal order.
+	Raw string
 }
 
 // VerifDump copies the state of a freelist created by this package.
@@ -61,6 +65,15 @@ func VerifDump(i Interface) VerifState {
 		st.Cache = append(st.Cache, id)
 	}
 	sort.Slice(st.Cache, func(a, b int) bool { return st.Cache[a] < st.Cache[b] })
+	st.Raw = fmt.Sprint(s.readonlyTXIDs)
+	var tids []common.Txid
+	for tid := range s.pending {
+		tids = append(tids, tid)
+	}
+	sort.Slice(tids, func(a, b int) bool { return tids[a] < tids[b] })
+	for _, tid := range tids {
+		st.Raw += fmt.Sprint(tid, s.pending[tid].ids, s.pending[tid].alloctx)
+	}
 	sort.Slice(st.Readers, func(a, b int) bool { return st.Readers[a] < st.Readers[b] })
 	return st
 }
